@@ -184,6 +184,20 @@ CHECKS = {
         note="Trusted: TLC; spacings whole or dyadic degrees (float32 labels inside smooth_spec); windows do not exceed the grid size.",
         technique="TLA+ exact window-mean model + TLC invariants + replay of every state",
         ref="§4 C16", engine="tlc"),
+    "C14": dict(
+        text="Select.tla defines nearest / inverse-distance / bounding-box selection on abstract positions of the sphere (half-degree "
+             "lattice with stations and queries either side of the 0 and 180 meridians): short-way longitude difference, exact squared "
+             "distances, inclusive tolerance radius, up-to-max_sites nearest with free ties, the station itself at zero distance, "
+             "missing when fewer than two are in range, the box in the query's own convention widened by the tolerance. MC_Select "
+             "enumerates station layouts x query points x both conventions for dataset and query independently x tolerances x max_sites "
+             "and checks NearestIsMin, ShortWay, IdwWithinTolerance, ToleranceWidens, BBoxContainsEnclosed; every state is replayed "
+             "through Dataset.spec.sel (nearest, idw, bbox; list/ndarray queries; with/without precomputed dset_lons/lats): membership, "
+             "reported longitudes in the query's convention and the IDW combination of distinct per-station spectra.",
+        note="Trusted: TLC. Exactly-180-degree positions and boxes whose widened interval reaches the seam of the query's convention "
+             "are not compared (0/360 and -180/180 read alike there); a query entirely inside [0,180] is ambiguous and either reading is "
+             "accepted. Two defects found and repaired (short-way distance, mixed-convention bbox).",
+        technique="TLA+ selection model on abstract sphere positions + TLC invariants + replay of every state",
+        ref="§4 C14", engine="tlc"),
 }
 
 NOT_YET = "check not yet built in this round (see DESIGN.md §4 for the planned TLA+ model); not claimed"
